@@ -536,6 +536,11 @@ func checkC19(rep *Report, rng *Rng, tier string) {
 					out = append(out, Op{K: k, Name: o.Name, Key: key, WV: r.Chance(1, 2), N: stop})
 				}
 			}
+			if r.Chance(1, 10) {
+				// items cached WITH their values (just set and flushed), then a key-only visit whose visitor runs other
+				// visits (which evict what they leave): the outer visit re-reads the evicted items and must stay key-only
+				out = append(out, Op{K: "flush"}, Op{K: []string{"nasc", "ndesc"}[r.Intn(2)], Name: o.Name, Key: []byte{byte(0xff * r.Intn(2))}, WV: false, N: -1})
+			}
 			if r.Chance(1, 40) {
 				out = append(out, Op{K: "copyfail"})
 			}
